@@ -223,9 +223,21 @@ def write_summary_file_vue(stats, filepath, year=2025, currency_format="${amount
         # Fallback: return cleaned up version of expression
         return filter_expr.replace('==', '=').replace('&&', ' and ').replace('||', ' or ')
 
-    # Helper function to create merchant IDs
+    # Helper function to create merchant IDs. Distinct names must get distinct IDs ("A B" and
+    # "A_B", or "O'Brien" and "OBrien", reduce to the same text): merchants are keyed by ID and
+    # a collision would silently drop one of them from the report
+    merchant_ids = {}
+
     def make_merchant_id(name):
-        return name.replace("'", "").replace('"', '').replace(' ', '_')
+        if name not in merchant_ids:
+            base = name.replace("'", "").replace('"', '').replace(' ', '_')
+            candidate = base
+            n = 2
+            while candidate in merchant_ids.values():
+                candidate = f"{base}_{n}"
+                n += 1
+            merchant_ids[name] = candidate
+        return merchant_ids[name]
 
     # Build section merchants data
     def build_section_merchants(merchant_dict):
